@@ -331,3 +331,167 @@ def _format_cases():
 @contract("pendulum.formatting.formatter.Formatter.format", props=["C08"])
 class formatter_format:
     cases = _format_cases()
+
+
+# =========================================================================================== from_format pieces (C08)
+# Formatter.parse threads one mutable dict through regex callbacks and is bounded only (DESIGN 12.6); its two pure pieces
+# are proved: what ONE token/value pair writes into that dict, and how the collected fields are completed from 'now'.
+_PARSED_KEYS = ("year", "month", "day", "hour", "minute", "second", "microsecond", "tz", "quarter", "day_of_week", "day_of_year", "meridiem", "timestamp")
+
+# token -> (value template ('#' = digit), field written, value as a function of the integer the digits denote)
+PARSE_RULES = {
+    "YYYY": ("####", "year", lambda v: v),
+    "YY": ("##", "year", lambda v: If(le(v, 68), sym.add(v, 2000), sym.add(v, 1900))),
+    "Q": ("#", "quarter", lambda v: v),
+    "MM": ("##", "month", lambda v: v), "M": ("#", "month", lambda v: v),
+    "DDDD": ("###", "day_of_year", lambda v: v), "DDD": ("##", "day_of_year", lambda v: v),
+    "DD": ("##", "day", lambda v: v), "D": ("#", "day", lambda v: v),
+    "HH": ("##", "hour", lambda v: v), "H": ("#", "hour", lambda v: v),
+    "hh": ("##", "hour", lambda v: v), "h": ("#", "hour", lambda v: v),
+    "mm": ("##", "minute", lambda v: v), "m": ("#", "minute", lambda v: v),
+    "ss": ("##", "second", lambda v: v), "s": ("#", "second", lambda v: v),
+    "S": ("#", "microsecond", lambda v: sym.mul(v, 100000)), "SS": ("##", "microsecond", lambda v: sym.mul(v, 10000)),
+    "SSS": ("###", "microsecond", lambda v: sym.mul(v, 1000)), "SSSS": ("####", "microsecond", lambda v: sym.mul(v, 100)),
+    "SSSSS": ("#####", "microsecond", lambda v: sym.mul(v, 10)), "SSSSSS": ("######", "microsecond", lambda v: v),
+    "d": ("#", "day_of_week", lambda v: v), "E": ("#", "day_of_week", lambda v: sym.sub(v, 1)),
+}
+OFFSET_VALUE_SHAPES = {"Z": ("+##:##", "-##:##", "+####", "-####"), "ZZ": ("+##:##", "-####", "+##", "-##")}
+
+
+def _parsed_value_case(token, tmpl):
+    from contracts.parsing import template_text
+
+    class case:
+        options = {"returns_param": "parsed"}
+
+        def applies(self, token, value, parsed, now):
+            return False
+
+        def args(F):
+            value, cons = template_text(F, tmpl, "v")
+            case._value = value
+            return dict(self=Obj(Formatter), token=token, value=value, parsed={k: None for k in _PARSED_KEYS}, now=None), cons
+
+        if token in ("hh", "h"):
+            raises = [(ValueError, "twelve_hour_clock", lambda self, token, value, parsed, now: gt(case._value.int_value(), 12))]
+        if token in OFFSET_VALUE_SHAPES:
+            @staticmethod
+            def _hm():
+                digs = [c for c in case._value.chars if not isinstance(c, str)]
+                return sym.add(sym.mul(digs[0], 10), digs[1]), (sym.add(sym.mul(digs[2], 10), digs[3]) if len(digs) == 4 else 0)
+
+            raises = [(ValueError, "offset_out_of_range", lambda self, token, value, parsed, now: Or(gt(case._hm()[0], 23), gt(case._hm()[1], 59)))]
+
+        def result(F, **a):
+            raise NotImplementedError
+
+        def ensures(result, self, token, value, parsed, now):
+            if not isinstance(result, dict) or set(result) != set(_PARSED_KEYS):
+                return [("returns_the_updated_dict", False)]
+            out = []
+            if token in OFFSET_VALUE_SHAPES:
+                tz = result["tz"]
+                digs = [c for c in value.chars if not isinstance(c, str)]
+                hh = sym.add(sym.mul(digs[0], 10), digs[1])
+                mm = sym.add(sym.mul(digs[2], 10), digs[3]) if len(digs) == 4 else 0
+                off = sym.mul(sym.add(sym.mul(hh, 60), mm), 60)
+                off = sym.neg(off) if value.chars[0] == "-" else off
+                ok = isinstance(tz, Obj) and "_offset" in tz.f
+                out.append(("tz_is_the_fixed_offset_written", eq(tz.f["_offset"], off) if ok else False))
+                field = "tz"
+            else:
+                _, field, f = PARSE_RULES[token]
+                out.append(("field_value", eq(result[field], f(value.int_value())) if result[field] is not None else False))
+            out.append(("nothing_else_written", all(result[k] is None for k in _PARSED_KEYS if k != field)))
+            return out
+
+    case.__name__ = f"{token}<-{tmpl!r}"
+    return case
+
+
+def _parsed_value_cases():
+    cases = {}
+    for token, (tmpl, _, _) in PARSE_RULES.items():
+        c = _parsed_value_case(token, tmpl)
+        cases[c.__name__] = c
+    for token, shapes in OFFSET_VALUE_SHAPES.items():
+        for tmpl in shapes:
+            c = _parsed_value_case(token, tmpl)
+            cases[c.__name__] = c
+    return cases
+
+
+@contract("pendulum.formatting.formatter.Formatter._get_parsed_value", props=["C08"])
+class get_parsed_value:
+    cases = _parsed_value_cases()
+
+
+_SEVEN = ("year", "month", "day", "hour", "minute", "second", "microsecond")
+
+
+def _check_parsed_case(mask, meridiem):
+    present = [k for i, k in enumerate(_SEVEN) if mask >> i & 1]
+
+    class case:
+        def applies(self, parsed, now):
+            return False
+
+        def args(F):
+            from contracts.dt import fresh_pdt
+
+            parsed = {k: None for k in _PARSED_KEYS}
+            cons = []
+            for k in present:
+                parsed[k] = F.int(f"p_{k}")
+                cons.append(ge(parsed[k], 0))   # digit strings denote non-negative integers
+            parsed["meridiem"] = meridiem
+            now, inv = fresh_pdt(F, None, "now")
+            case._parsed = parsed
+            return dict(self=Obj(Formatter), parsed=parsed, now=now), cons + [inv]
+
+        if meridiem is not None:
+            # "If the time is greater than 13:00:00 this is not valid" - and a meridiem needs an hour
+            raises = [(ValueError, "meridiem_without_hour_or_past_12",
+                       lambda self, parsed, now: True if parsed["hour"] is None else ge(parsed["hour"], 13))]
+
+        def result(F, **a):
+            raise NotImplementedError
+
+        def ensures(result, self, parsed, now):
+            p = parsed
+            if not isinstance(result, dict):
+                return [("returns_a_dict", False)]
+            year = p["year"] if p["year"] is not None else now.year
+            if p["month"] is not None:
+                month = p["month"]
+            else:
+                month = 1 if p["year"] is not None else now.month
+            if p["day"] is not None:
+                day = p["day"]
+            else:
+                day = 1 if (p["year"] is not None or p["month"] is not None) else now.day
+            hour = p["hour"] if p["hour"] is not None else 0
+            if meridiem is not None:
+                hour = sym.add(sym.fmod(hour, 12), 12 if meridiem == "pm" else 0)
+            exp = dict(year=year, month=month, day=day, hour=hour, minute=p["minute"] if p["minute"] is not None else 0,
+                       second=p["second"] if p["second"] is not None else 0, microsecond=p["microsecond"] if p["microsecond"] is not None else 0)
+            out = [(f"{k}_given_or_defaulted", eq(result[k], v) if result.get(k) is not None else False) for k, v in exp.items()]
+            out.append(("tz_passed_through", result.get("tz") is p["tz"]))
+            return out
+
+    case.__name__ = ("+".join(present) or "nothing") + (f"+{meridiem}" if meridiem else "")
+    return case
+
+
+def _check_parsed_cases():
+    cases = {}
+    for mask in range(128):
+        for mer in (None, "am", "pm"):
+            c = _check_parsed_case(mask, mer)
+            cases[c.__name__] = c
+    return cases
+
+
+@contract("pendulum.formatting.formatter.Formatter._check_parsed", props=["C08"])
+class check_parsed:
+    cases = _check_parsed_cases()
